@@ -80,3 +80,17 @@ func (l *Liar) ToldSnapshot() map[chainhash.Hash]string {
 // Elapsed returns the time since the log was started (the T of an event added
 // now).
 func (l *Log) Elapsed() time.Duration { return time.Since(l.start) }
+
+// IsReady reports whether the handshake of the peer's CURRENT connection has
+// completed (race-free: Ready is replaced when a new connection attaches).
+func (p *Peer) IsReady() bool {
+	p.mu.Lock()
+	r := p.Ready
+	p.mu.Unlock()
+	select {
+	case <-r:
+		return true
+	default:
+		return false
+	}
+}
